@@ -58,6 +58,37 @@ CHECKS = {
                 ref="5/C07", note=E1_NOTE),
 }
 
+E23_NOTE = ("Trusted base: the harness (vf/), CPython; the reference models are a few "
+            "lines of Python each (dict ledger / sorted list / path enumeration). "
+            "Bounded by the stated depth / size; all on the real classes of /repo.")
+
+CHECKS.update({
+    "C04": dict(engine="E2", technique="explicit-state BFS over operation histories on "
+                "the real Resources/Worker/WorkerPool objects with a reference ledger",
+                text="All histories of place / place-in-batch / remove / load / evict / "
+                     "step / copy / deepcopy (full alphabet depth 4 quick / 5 thorough; "
+                     "batch alphabet 6 / 8) and of allocate / allocate_multiple / "
+                     "deallocate / copy on bare Resources; after every operation all "
+                     "public getters vs the reference, refusals change nothing, "
+                     "draining restores totals, copies are equal and independent. E1 "
+                     "runs add: idle cluster => full capacity.",
+                ref="5/C04", note=E23_NOTE),
+    "C16": dict(engine="E3+E2", technique="exhaustive enumeration of boundary value/unit "
+                "pairs and triples; explicit-state BFS over event-queue op sequences",
+                text="EventTime operators agree with integer microseconds on all "
+                     "pairs/triples of boundary values x units; EventQueue.next/peek "
+                     "always minimal in (time, priority[, task name]) after every "
+                     "add/remove/in-place re-time sequence to depth 6 (8).",
+                ref="5/C16", note=E23_NOTE),
+    "C17": dict(engine="E3", technique="exhaustive enumeration of all labelled DAGs "
+                "(<=5 nodes quick, <=6 thorough) and cyclic digraphs (<=4) vs "
+                "brute-force definitions",
+                text="topological_sort, get_longest_path (all weight vectors), "
+                     "critical path / completion time, are_dependent, depth, sources, "
+                     "sinks, breadth_first, depth_first on every labelled DAG.",
+                ref="5/C17", note=E23_NOTE),
+})
+
 NOT_YET = {}
 
 
@@ -117,6 +148,11 @@ def main():
 
 
 ENGINES = [
+    {"name": "E2", "path": "vf/checks/c04.py", "serves_properties": ["C04", "C16"],
+     "kind_free_text": "explicit-state BFS over operation histories on real objects "
+                       "(state = history, rebuilt on fresh objects), reference model"},
+    {"name": "E3", "path": "vf/checks/c17.py", "serves_properties": ["C16", "C17"],
+     "kind_free_text": "exhaustive input enumeration of pure functions vs brute force"},
     {"name": "E1", "path": "vf/e1.py", "serves_properties":
         ["C01", "C02", "C03", "C05", "C06", "C07"],
      "kind_free_text": "closed-world run explorer: real main.main() in-process, answer "
